@@ -33,7 +33,6 @@ only where the value function is smooth at the point: the two step sizes must ag
 one-sided slopes must behave like those of a differentiable function (a kink or cusp exactly
 at the point, e.g. |x| at 0, is not a point where a derivative exists)."""
 import copy
-import itertools
 import math
 
 import numpy as np
@@ -43,7 +42,7 @@ from mc.builders import trees as tb
 from mc.env import tt
 from mc.explore import enumerate as en
 from mc.explore import graphstate as gs
-from mc.runner import jdump, pmap
+from mc.runner import pmap
 
 LEVEL = "exploration"
 TOL = 1e-5          # |g_ad - g_fd| <= TOL * max(1, |g_fd|)
@@ -886,13 +885,16 @@ def degenerate_spectrum(like):
 
     if not isinstance(sm, SymmetricSubstitutionModel) or isinstance(sm, NonSymmetricSubstitutionModel):
         return False
-    with torch.no_grad():
-        q = sm.q().detach().double().reshape(sm.q().shape[-2:]).numpy()
-        pi = sm.frequencies.detach().double().reshape(-1).numpy()
-    q = q / -(np.diag(q) * pi).sum()
-    s = np.sqrt(pi)[:, None] * q / np.sqrt(pi)[None, :]
-    ev = np.sort(np.linalg.eigvalsh((s + s.T) / 2))
-    return bool(np.min(np.diff(ev)) < 1e-9)
+    try:
+        with torch.no_grad():
+            q = sm.q().detach().double().reshape(sm.q().shape[-2:]).numpy()
+            pi = sm.frequencies.detach().double().reshape(-1).numpy()
+        q = q / -(np.diag(q) * pi).sum()
+        s = np.sqrt(pi)[:, None] * q / np.sqrt(pi)[None, :]
+        ev = np.sort(np.linalg.eigvalsh((s + s.T) / 2))
+        return bool(np.min(np.diff(ev)) < 1e-9)
+    except Exception:  # only a label of the signature
+        return False
 
 
 def plan(gid, seed):
@@ -1061,8 +1063,14 @@ def judge_all(ads, fds, seed):
         fam = gid.split(":")[0]
         tot["mingap"] = min(tot["mingap"], a["gap"])
         tot["self_rescaled"] += len(a["self_rescaled"])
-        for n in a["skipped"]:
-            tot["skipped"].setdefault(a["info"][n]["class"], str(a["base"][n])[:140])
+        if not rs:
+            for n in a["info"]:
+                cl = a["info"][n]["class"]
+                rec = tot["skipped"].setdefault(cl, {"points": 0, "not_evaluable": 0, "example": None})
+                rec["points"] += 1
+                if n in a["skipped"]:
+                    rec["not_evaluable"] += 1
+                    rec["example"] = rec["example"] or f"{gid} point {j}: {str(a['base'][n])[:140]}"
         failing = dict(carry.get((gid, j), {})) if rs else {}
         local = []
         for (p, i), byname in sorted(fds[key].items()):
@@ -1200,7 +1208,7 @@ def run(run):
         "fd_unavailable_pairs": tot["unavailable"],
         "fd_unreliable_pairs": len(tot["unreliable"]),
         "fd_unreliable_examples": tot["unreliable"][:6],
-        "densities_not_evaluable_on_a_fresh_graph": tot["skipped"],
+        "densities_not_evaluable_on_a_fresh_graph": {k: v for k, v in tot["skipped"].items() if v["not_evaluable"]},
         "likelihood_evaluations_that_switched_rescaling_on_by_themselves": tot["self_rescaled"],
         "max_observed_relative_discrepancy_on_passing_pairs": tot["maxerr"],
         "largest_discrepancies_on_passing_pairs": tot["worst"],
@@ -1231,12 +1239,14 @@ ASSUMPTIONS = [
     "graphs are taken on the 3-taxon topologies only (they are properties of parameter values, not of topologies)",
     "the symmetric interior points (equal frequencies, kappa = 1, equal exchangeabilities, equal population sizes) "
     "are part of the space: they are interior points of the domain and the CLI starts every run there",
-    "densities that cannot be evaluated at all on a fresh graph are skipped and listed "
-    "(densities_not_evaluable_on_a_fresh_graph): they are findings of C07/C08/C09, not of this property",
+    "densities that cannot be evaluated on a fresh graph (they raise or return a non-finite value) are skipped and "
+    "listed with the number of evaluation points concerned (densities_not_evaluable_on_a_fresh_graph): BirthDeathModel, "
+    "the piecewise-exponential coalescent and the transforms without a log-Jacobian never evaluate (findings of "
+    "C07/C08/C09, not of this property); the exponential coalescent returns NaN at growth = 0 (its neutral point)",
     "parameters of a simplex are perturbed one coordinate at a time (the formula of the density is differentiated "
     "as written, like autograd does)",
-    "unconstrained values of a CLI fixture beyond +-100 (a saturated transform, e.g. s = sigmoid(-708)) are "
-    "numerically on the boundary of the domain and are replaced by -+1",
+    "unconstrained values of a CLI fixture beyond +-100 (a saturated transform, e.g. s = sigmoid(-708) = 2e-308) are "
+    "numerically on the boundary of the domain and are replaced by generic values of magnitude about 1 (1, 1.37, ...)",
     "a parameter is taken to influence a density when moving all its elements by generic amounts changes the value "
     "(one fresh graph); for the other (density, parameter) pairs the derivative is 0 without further evaluations and "
     "the autograd gradient must be absent or 0",
